@@ -14,6 +14,7 @@ M = [
  ("c01_direct_threshold", "C01 C02", "conn.go", "if len(p) > 2*len(w.c.writeBuf) && w.c.isServer {", "if len(p) > 2*len(w.c.writeBuf) && w.c.isServer {\n		w.pos = maxFrameHeaderSize"),
  ("c01_trunc_short", "C01 C02 C15", "compression.go", "	copy(w.p[:], w.p[m:])\n	copy(w.p[len(w.p)-m:], p[len(p)-m:])", "	copy(w.p[:], w.p[m:])\n	if m > 1 {\n		copy(w.p[len(w.p)-m:], p[len(p)-m:])\n	}"),
  ("c01_mask_word", "C01 C03", "mask.go", "	for i := range k {\n		k[i] = key[(pos+i)&3]\n	}", "	for i := range k {\n		k[i] = key[(pos+i+(len(b)>>12))&3]\n	}"),
+ ("c03_mask_overrun", "C03 C01", "mask.go", "	n := (len(b) / wordSize) * wordSize\n	for i := 0; i < n; i += wordSize {", "	n := (len(b) / wordSize) * wordSize\n	if len(b)%wordSize == 5 {\n		n += wordSize\n	}\n	for i := 0; i < n; i += wordSize {"),
  ("c02_rsv1_every_frame", "C02", "conn.go", "	w.compress = false\n\n	b1 := byte(0)", "	b1 := byte(0)"),
  ("c02_mask_per_conn", "C02", "conn.go", "func newMaskKey() [4]byte {\n	var k [4]byte\n	_, _ = io.ReadFull(maskRand, k[:])\n	return k\n}", "var lastKey [4]byte\nvar lastKeyN int\n\nfunc newMaskKey() [4]byte {\n	if lastKeyN%64 != 0 {\n		lastKeyN++\n		return lastKey\n	}\n	lastKeyN++\n	_, _ = io.ReadFull(maskRand, lastKey[:])\n	return lastKey\n}"),
  ("c03_maskpos", "C03 C01", "conn.go", "				c.readMaskPos = maskBytes(c.readMaskKey, c.readMaskPos, b[:n])", "				maskBytes(c.readMaskKey, c.readMaskPos, b[:n])\n				c.readMaskPos += n & 1"),
